@@ -17,7 +17,7 @@ def Healable (c : Cond) : Bool := (c.hdrPtr || c.foot == .ok) && (c.tocSum || c.
 /-- nothing left to repair -/
 def Good (c : Cond) : Bool :=
   c.hdrPtr && c.hdrSum && c.tocSum && c.foot == .ok && c.time != .corrupt && !(c.time == .missing && c.hasFrames)
-    && c.vec != .corrupt && c.walOk && !c.hasPending
+    && c.vec != .corrupt && c.lex != .corrupt && c.walOk && !c.hasPending
 
 def okStatus : Outcome → Bool
   | .report .clean .none _ => true
@@ -72,8 +72,9 @@ structure Step (e e' : Exec) : Prop where
   time : e'.mem.c.time = e.mem.c.time ∨ e'.mem.c.time = .ok
   vecOk : e.mem.c.vec = .ok → e'.mem.c.vec = .ok
   vecNc : e.mem.c.vec ≠ .corrupt → e'.mem.c.vec ≠ .corrupt
+  lexNc : e.mem.c.lex ≠ .corrupt → e'.mem.c.lex ≠ .corrupt
 
-theorem Step.refl (e : Exec) : Step e e := ⟨rfl, rfl, id, .inl rfl, id, id⟩
+theorem Step.refl (e : Exec) : Step e e := ⟨rfl, rfl, id, .inl rfl, id, id, id⟩
 
 theorem Step.trans {a b c : Exec} (h1 : Step a b) (h2 : Step b c) : Step a c where
   moved := h2.moved.trans h1.moved
@@ -87,6 +88,7 @@ theorem Step.trans {a b c : Exec} (h1 : Step a b) (h2 : Step b c) : Step a c whe
     · exact .inr h
   vecOk := fun h => h2.vecOk (h1.vecOk h)
   vecNc := fun h => h2.vecNc (h1.vecNc h)
+  lexNc := fun h => h2.lexNc (h1.lexNc h)
 
 /-- no index rebuild is scheduled -/
 def NoFlags (e : Exec) : Prop := e.pTime = false ∧ e.pLex = false ∧ e.pVec = false
@@ -112,7 +114,7 @@ theorem hdrPhase_spec (h1 h2 : Bool) (e : Exec) (hi : Inv e) (hf : NoFlags e) :
     intro hm; simp [readToc, footerValid, hptr, hfoot hm]
   cases h1 <;> cases h2 <;> cases moved <;> cases sit <;>
     simp_all [hdrPhase, runPhase, runActions, execAction, opt, NoFlags] <;>
-    (refine ⟨⟨?_, ?_, ?_⟩, ⟨?_, ?_, ?_, ?_, ?_, ?_⟩⟩ <;> simp_all)
+    (refine ⟨⟨?_, ?_, ?_⟩, ⟨?_, ?_, ?_, ?_, ?_, ?_, ?_⟩⟩ <;> simp_all)
 
 theorem walPhase_spec (e : Exec) : (runPhase e walPhase).1 = e := by
   simp [walPhase, runPhase, runActions, execAction]
@@ -124,20 +126,21 @@ theorem vacPhase_spec (e : Exec) (hi : Inv e) (hf : NoFlags e) :
   simp only at f1 f2 f3
   subst f1 f2 f3
   simp [vacPhase, runPhase, runActions, execAction, rewritten, NoFlags]
-  refine ⟨⟨?_, ?_, ?_⟩, ⟨?_, ?_, ?_, ?_, ?_, ?_⟩⟩ <;> simp
+  refine ⟨⟨?_, ?_, ?_⟩, ⟨?_, ?_, ?_, ?_, ?_, ?_, ?_⟩⟩ <;> simp <;> (intro _; split <;> simp)
 
 theorem idxPhase_spec (i1 i2 i3 : Bool) (hne : (i1 || i2 || i3) = true) (e : Exec) (hf : NoFlags e) :
     Inv (runPhase e (idxPhase i1 i2 i3)).1 ∧ Step e (runPhase e (idxPhase i1 i2 i3)).1 ∧
       (runPhase e (idxPhase i1 i2 i3)).1.mem.c.time = .ok ∧
       (runPhase e (idxPhase i1 i2 i3)).1.mem.c.foot = .ok ∧
       (runPhase e (idxPhase i1 i2 i3)).1.mem.c.hdrSum = true ∧
-      (i3 = true → (runPhase e (idxPhase i1 i2 i3)).1.mem.c.vec ≠ .corrupt) := by
+      (i3 = true → (runPhase e (idxPhase i1 i2 i3)).1.mem.c.vec ≠ .corrupt) ∧
+      (i2 = true → (runPhase e (idxPhase i1 i2 i3)).1.mem.c.lex ≠ .corrupt) := by
   obtain ⟨⟨c, moved, sit⟩, pt, pl, pv⟩ := e
   obtain ⟨f1, f2, f3⟩ := hf
   simp only at f1 f2 f3
   subst f1 f2 f3
   cases i1 <;> cases i2 <;> cases i3 <;> simp at hne <;>
-    (refine ⟨⟨?_, ?_, ?_⟩, ⟨?_, ?_, ?_, ?_, ?_, ?_⟩, ?_, ?_, ?_, ?_⟩ <;>
+    (refine ⟨⟨?_, ?_, ?_⟩, ⟨?_, ?_, ?_, ?_, ?_, ?_, ?_⟩, ?_, ?_, ?_, ?_, ?_⟩ <;>
       simp [idxPhase, runPhase, runActions, execAction, opt, applyRebuilds, rewritten] <;>
       (try (intro h; simp [h])) <;> (try (split <;> simp_all)))
 
@@ -146,7 +149,7 @@ theorem finPhase_spec (e : Exec) (hi : Inv e) :
       (runPhase e finPhase).1.mem.c.foot = .ok ∧ (runPhase e finPhase).1.mem.c.hdrSum = true := by
   obtain ⟨⟨c, moved, sit⟩, pt, pl, pv⟩ := e
   cases pt <;> cases pl <;> cases pv <;>
-    (refine ⟨⟨?_, ?_, ?_⟩, ⟨?_, ?_, ?_, ?_, ?_, ?_⟩, ?_, ?_⟩ <;>
+    (refine ⟨⟨?_, ?_, ?_⟩, ⟨?_, ?_, ?_, ?_, ?_, ?_, ?_⟩, ?_, ?_⟩ <;>
       simp [finPhase, runPhase, runActions, execAction, applyRebuilds, rewritten] <;>
       (try (intro h; simp [h])) <;> (try (split <;> simp_all)))
 
@@ -206,40 +209,47 @@ theorem runBody_planOfShape (s : Shape) (e : Exec) : (runBody e (planOfShape s))
 /-- what the body of the plan achieves (relative to the handle `e` it started from) -/
 def Achieved (s : Shape) (e x : Exec) : Prop :=
   Inv x ∧ Step e x ∧ (s.idx = true → x.mem.c.time = .ok) ∧ (s.i3 = true → x.mem.c.vec ≠ .corrupt) ∧
+    (s.i2 = true → x.mem.c.lex ≠ .corrupt) ∧
     (s.fin = true → x.mem.c.foot = .ok ∧ x.mem.c.hdrSum = true)
 
 theorem tail_fin (s : Shape) (e e4 : Exec) (i4 : Inv e4) (s4 : Step e e4)
-    (t4 : s.idx = true → e4.mem.c.time = .ok) (v4 : s.i3 = true → e4.mem.c.vec ≠ .corrupt) :
+    (t4 : s.idx = true → e4.mem.c.time = .ok) (v4 : s.i3 = true → e4.mem.c.vec ≠ .corrupt)
+    (l4 : s.i2 = true → e4.mem.c.lex ≠ .corrupt) :
     Achieved s e (stepIf s.fin finPhase e4) := by
   unfold stepIf
   by_cases hfin : s.fin = true
   · obtain ⟨i5, s5, ft5, hs5⟩ := finPhase_spec e4 i4
     simp only [hfin, if_true]
-    refine ⟨i5, s4.trans s5, ?_, ?_, fun _ => ⟨ft5, hs5⟩⟩
+    refine ⟨i5, s4.trans s5, ?_, ?_, ?_, fun _ => ⟨ft5, hs5⟩⟩
     · intro hx
       rcases s5.time with h | h
       · rw [h]; exact t4 hx
       · exact h
     · intro hx
       exact s5.vecNc (v4 hx)
+    · intro hx
+      exact s5.lexNc (l4 hx)
   · simp only [hfin]
-    exact ⟨i4, s4, t4, v4, fun h => absurd h hfin⟩
+    exact ⟨i4, s4, t4, v4, l4, fun h => absurd h hfin⟩
 
 theorem tail_idx (s : Shape) (e e3 : Exec) (i3 : Inv e3) (s3 : Step e e3) (f3 : NoFlags e3) :
     Achieved s e (stepIf s.fin finPhase (stepIf s.idx (idxPhase s.i1 s.i2 s.i3) e3)) := by
   by_cases hx : s.idx = true
-  · obtain ⟨i4, s4, t4, _, _, v4⟩ := idxPhase_spec s.i1 s.i2 s.i3 hx e3 f3
+  · obtain ⟨i4, s4, t4, _, _, v4, l4⟩ := idxPhase_spec s.i1 s.i2 s.i3 hx e3 f3
     have : stepIf s.idx (idxPhase s.i1 s.i2 s.i3) e3 = (runPhase e3 (idxPhase s.i1 s.i2 s.i3)).1 := by
       simp [stepIf, hx]
     rw [this]
-    exact tail_fin s e _ i4 (s3.trans s4) (fun _ => t4) v4
+    exact tail_fin s e _ i4 (s3.trans s4) (fun _ => t4) v4 l4
   · have h3 : s.i3 = false := by
       unfold Shape.idx at hx
       cases h : s.i3 <;> simp_all
+    have h2 : s.i2 = false := by
+      unfold Shape.idx at hx
+      cases h : s.i2 <;> simp_all
     have : stepIf s.idx (idxPhase s.i1 s.i2 s.i3) e3 = e3 := by
       simp [stepIf, hx]
     rw [this]
-    exact tail_fin s e _ i3 s3 (fun h => absurd h hx) (fun h => by simp [h3] at h)
+    exact tail_fin s e _ i3 s3 (fun h => absurd h hx) (fun h => by simp [h3] at h) (fun h => by simp [h2] at h)
 
 theorem tail_vac (s : Shape) (e e1 : Exec) (i1 : Inv e1) (s1 : Step e e1) (f1 : NoFlags e1) :
     Achieved s e (stepIf s.fin finPhase (stepIf s.idx (idxPhase s.i1 s.i2 s.i3) (stepIf s.vac vacPhase e1))) := by
